@@ -1142,3 +1142,15 @@ let () =
       prev := List.length l;
       log_to_string fresh) xops obs in
     if per = [] then "-" else String.concat "," per)
+
+(* bzpfx <numSyms> <sym,sym,...|-> : the prefix-coding stage of one bzip2 block on its own
+   (Bzip2/SpecW.v encode_prefix), bits packed most significant first, zero padded *)
+let () =
+  register "bzpfx" (fun args -> match args with
+    | [ns; syms] ->
+      let l = if syms = "-" then [] else List.map (fun x -> n_of_int (int_of_string x)) (String.split_on_char ',' syms) in
+      let acc = encode_prefix l (n_of_int (int_of_string ns)) [] in
+      let bits = List.rev acc in
+      hex_of_bytes (pack_msb (nat_of_int (List.length bits + 2)) bits [])
+    | _ -> "badargs")
+
